@@ -104,7 +104,40 @@ CHECKS["C11"] = {
               A("xoraddr", "./checks/c11", "TestC11XorAddrs", gomaxprocs=2, budget={"quick": 60, "thorough": 1200})],
 }
 
+CHECKS["C17"] = {
+    "level": "exploration",
+    "engine": "enum",
+    "technique": "bounded-exhaustive enumeration of configurations, instants (virtual clock) and single-character mutations against an independent reference of the REST credential scheme",
+    "rule": "Engine C in synctest bubbles (virtual clock, exact to the ns): every (secret in {'', 's', 32 B}) x (user in {'', 'u', 'a:b', non-ASCII}; none for the plain generator) x (realm in {'', 'r', 'pion.ly'}) "
+            "x 14 durations (negative, zero, sub-second, 1 s .. 100 d, stamps > 2^31) x generation phase {.000,.500,.999} x both generator/handler pairs; generator output compared with a reference written from "
+            "draft-uberti-behave-turn-rest (HMAC-SHA1/base64); handler called at every second boundary +-1 ms in [stamp-3, stamp+4] (thorough +-30 s): ok <=> now.Unix() <= stamp, key = MD5(user:realm:pass), "
+            "and a wire-built Allocate signed with the generated password verifies under the returned key; every single-rune substitution/deletion/insertion over {0,9,:,+,-,a,space} of username, password and both; "
+            "passwords of other secrets / usernames never authenticate; end to end through a real turn.Server on simnet at 7 instants around expiry plus forged requests. "
+            "A class is (pair kind, duration class, instant relative to the stamp, outcome) or (mutation kind, username shape, outcome).",
+    "parts": [A("handlers", "./checks/c17", "TestC17Handlers", budget={"quick": 60, "thorough": 300}),
+              A("mutations", "./checks/c17", "TestC17Mutations", budget={"quick": 60, "thorough": 300}),
+              A("e2e", "./checks/c17", "TestC17EndToEnd", budget={"quick": 60, "thorough": 300})],
+}
+CHECKS["C20"] = {
+    "level": "exploration",
+    "engine": "enum",
+    "technique": "bounded-exhaustive enumeration of generator configurations and scripted random answers, plus explicit-state search over allocate/close histories on a 3-port range",
+    "rule": "Engine C: (i) port-range generator: boundary set^2 + all (Min,Max) pairs in [1,40] and [65496,65535] x every Intn answer (n<=64) or {0,1,n/2,n-2,n-1} x udp4/udp6/tcp4/tcp6 "
+            "(thorough: ALL 2^31 pairs 1<=Min<=Max<=65535 x answers {0,n-1} through a recording stub transport.Net): n passed to Intn = Max-Min+1, bound port in [Min,Max], advertised port = bound port, "
+            "advertised IP = RelayAddress, exactly one socket open and freed on Close; (ii) Range/Static/None generators x networks x listen address x MaxRetries x requested port {0, free, in use, bind-fail, twice}: "
+            "success => requested = bound = advertised, failure => error, nothing returned, nothing new open; (iii) all histories (depth 6 quick / 7 thorough) over range [50000,50002] x MaxRetries {1,2,10} x udp/tcp of "
+            "{allocate with every distinguishable Intn answer sequence, close live socket i}: open sockets = model set after every step, no port live twice, clean failure only when every answered port was busy. "
+            "A class is (net, range-size class, port position) / (generator, network, mode, outcome) / (MaxRetries, live-before, outcome, Intn calls).",
+    "parts": [A("range", "./checks/c20", "TestC20Range", budget={"quick": 60, "thorough": 1500}),
+              A("requested", "./checks/c20", "TestC20Requested", budget={"quick": 60, "thorough": 120}),
+              A("filldrain", "./checks/c20", "TestC20FillDrain", budget={"quick": 60, "thorough": 900})],
+}
+
 ENGINES = [
+    {"name": "sched", "path": "/verif/sched + /verif/shim + /verif/instr", "serves_properties": ["C18"],
+     "kind_free_text": "Engine B: controlled scheduler over sources instrumented at check time (go build -overlay): stateless DFS over all schedules with at most k preemptions, prefix replay, work stealing between shard processes"},
+    {"name": "enum", "path": "/verif/checks/c10 c11 c17 c20", "serves_properties": ["C11", "C17", "C20"],
+     "kind_free_text": "Engine C: bounded-exhaustive enumeration of inputs / configurations / segmentations of sequential functions against an independent RFC reference"},
     {"name": "vtx", "path": "/verif/vtx", "serves_properties": ["C01", "C02", "C04", "C06", "C07", "C08", "C19"],
      "kind_free_text": "Engine A: explicit-state search over event histories of the real turn.Server/turn.Client in virtual time (testing/synctest) over an in-memory network, reference model + probe sweep after every event"},
 ]
